@@ -175,6 +175,17 @@ CLAIMED["C08"] = dict(
          "(3 atoms; 2 frames x 2 atoms); the xyz comment line (name) is not restored by the reader and is outside the statement.",
 )
 
+CLAIMED["C10"] = dict(
+    text="Proof per member of an enumerated damage family (fault enumeration over symbolic content): the real writers produce a 2-molecule mol2 / 2-frame "
+         "xyz text with symbolic name, labels, coordinates and charges; for every line-level damage (truncation at each line boundary, "
+         "deletion or duplication of each single line) the real readers either raise or return complete molecules, each with the "
+         "declared atom and bond counts and the content of the corresponding undamaged molecule -- proved for all contents.",
+    ref="DESIGN.md section 3 C10, section 4",
+    note="Damage family at line granularity over one file shape; structured-string model and text codecs as in C07/C08; names/labels "
+         "that are themselves numbers or start with '#'/'@' are excluded by precondition; NOT decided: termination on arbitrary text, "
+         "truncation inside a record line (a cut number is a shorter valid number: the formats carry no terminator/checksum).",
+)
+
 NOT_APPLICABLE = {
 }
 
